@@ -23,7 +23,7 @@ def run(tier, seed):
             # the release build gets exactly the inputs the debug build saw (random corpus values are not reproducible across processes)
             with open(traces["debug"]) as f:
                 inputs = [{"b": json.loads(l)["blob"]} for l in f if '"abort"' not in l[:40]]
-            trace, bad = standard_flow(res, wdp, [], "fuzz", "Trace_Msg", 0, seed, profile=profile, harness_extra=["fuzz"], extra_cases=inputs, hshards=1)
+            trace, bad = standard_flow(res, wdp, [], "fuzz", "Trace_Msg", 0, seed, profile=profile, harness_extra=["fuzz"], extra_cases=inputs, hshards=8)
         traces[profile] = trace
         recs = read_lines(trace, bad.keys())
         for ln, tags in bad.items():
@@ -37,11 +37,20 @@ def run(tier, seed):
                                                                        "runs": [[x.get("d"), x.get("s"), cls(x), x.get("peak")] for x in r.get("runs", [])], "native": r.get("native")}, "")
     # debug and release builds must agree on every outcome class (wrapped arithmetic would show here)
     nlines = 0
-    with open(traces["debug"]) as fd, open(traces["release"]) as fr:
-        for ld, lr in zip(fd, fr):
+    rel = {}
+    with open(traces["release"]) as fr:
+        for lr in fr:
+            b = json.loads(lr)
+            if "abort" not in b:
+                rel[bytes(b["blob"])] = b
+    with open(traces["debug"]) as fd:
+        for ld in fd:
             nlines += 1
-            a, b = json.loads(ld), json.loads(lr)
-            if "abort" in a or "abort" in b:
+            a = json.loads(ld)
+            if "abort" in a:
+                continue
+            b = rel.get(bytes(a["blob"]))
+            if b is None:
                 continue
             res.count_case(json.dumps(a["blob"]), nontrivial=len(a["blob"]) > 6)
             ca = [cls(x) for x in a["runs"]] + [cls(x) for x in a["native"]] + [cls(a["any"]), cls(a["real"])]
